@@ -12,7 +12,7 @@ DEFAULT = {
     "w": {  # operation weights
         "apply": 6, "map": 7, "start": 6, "cancel": 4, "cancel_group": 3, "cancel_all": 1,
         "stop": 3, "flush": 2, "lock": 1, "unlock": 1, "open": 5, "y": 6, "idle": 3,
-        "intruder": 2, "probe": 0.5, "gac": 0.3, "reject": 0.7, "regroup": 0.8, "qput": 1.2, "burst": 0.15, "combo": 1.5,
+        "intruder": 2, "probe": 0.5, "gac": 0.3, "reject": 0.7, "regroup": 0.8, "qput": 1.2, "burst": 0.15, "combo": 1.5, "set_same": 0.7,
     },
     "gate": 0.3,  # share of gate instructions in bodies
     "fault": 0.12,  # probability that a body / callback raises
@@ -103,12 +103,16 @@ class Gen:
             c["y"] = r.choice([0, 0, 1, 2])
             if r.random() < p["cb_gate"]:
                 c["gate"] = True
+            if r.random() < 0.3:
+                c["prop"] = True
         if r.random() < p["fault"]:
             c["raise"] = True
         if r.random() < p["inner_ops"]:
             c["op"] = self.inner_op(pool)
         if r.random() < 0.15:
             c["partial"] = True
+        elif r.random() < 0.12 and not c.get("async"):
+            c["obj"] = True
         return c
 
     def ids(self):
@@ -128,7 +132,7 @@ class Gen:
             pool = r.choice(others)  # user code of one pool operating on another pool in the same loop
         k = self.wchoice({"cancel": 4, "cancel_group": 4, "cancel_all": 1.5, "stop": 2 if pool["cls"] == "S" else 0,
                           "apply": 2 if pool["cls"] == "T" else 0, "start": 0,
-                          "flush": 1, "open": 2, "lock": 0.3, "unlock": 0.3})
+                          "flush": 1, "open": 2, "lock": 0.3, "unlock": 0.3, "set_same": 2 if self.p["w"].get("set_same", 0) > 0 else 0})
         return self.simple_op(k, pool, depth=1)
 
     def simple_op(self, k, pool, depth=0):
@@ -141,6 +145,8 @@ class Gen:
             return {"op": "cancel_group", "pool": pi, "sel": self.group_sel(), **msg}
         if k == "cancel_all":
             return {"op": "cancel_all", "pool": pi, **msg}
+        if k == "set_same":
+            return {"op": "set_size", "pool": pi, "v": "same"}
         if k == "stop":
             if r.random() < 0.2:
                 return {"op": "stop_all", "pool": pi}
@@ -173,7 +179,8 @@ class Gen:
             # imitate the generated pattern
             return r.choice(["apply-w-group-0", "map-w-group-1", "starmap-w-group-0", "apply-w-group-1", "start-group-0"])
         self.nreq += 1
-        return f"g{self.nreq}"
+        # legal names with characters that matter to %-formatting, str.format, option parsing and the name pattern
+        return r.choice(["g{n}", "g{n}", "g{n}", "g{n}%", "%s-{n}", "{{}}{n}", "g {n}", "%(x)s{n}", "a%%b{n}", "-g{n}", "gr\u00fcppe{n}", "g{n}-" + "y" * 70]).format(n=self.nreq)
 
     def fname(self):
         return self.r.choice(["w", "w", "w", "v", "work_er"])
@@ -186,6 +193,8 @@ class Gen:
              "fname": self.fname(), "marker": r.random() < p["marker"]}
         if not s["marker"] and r.random() < 0.4:
             s["flavour"] = "method"
+        elif s["gname"] is not None and r.random() < 0.3:
+            s["flavour"] = "partial"
         if depth == 0:
             s["ecb"], s["ccb"] = self.cb(pool), self.cb(pool)
             s["bodies"] = self.bodies(pool)
@@ -196,6 +205,8 @@ class Gen:
         if r.random() < 0.1:
             s.pop("num")
             s["num_default"] = True
+        if s.get("num", 1) <= 1 and r.random() < 0.15:
+            s["args"] = "iter"
         return s
 
     def map(self, pool):
@@ -206,6 +217,8 @@ class Gen:
              "gname": self.gname(), "fname": self.fname(), "marker": r.random() < p["marker"],
              "iter": r.choice(["gen"] * 5 + ["list", "tuple", "dictvalues"]),
              "ecb": self.cb(pool), "ccb": self.cb(pool), "bodies": self.bodies(pool)}
+        if s["gname"] is not None and r.random() < 0.3:
+            s["flavour"] = "partial"
         if n and r.random() < p["bad_elems"] and (kind != "map" or s["marker"]):
             s["bad"] = sorted({r.randrange(n) for _ in range(r.choice([1, 1, 2, 3]))})
         if n and kind != "map" and r.random() < 0.2:
@@ -226,6 +239,8 @@ class Gen:
         causes = r.sample(["func", "nc", "dup"], r.choice([1, 1, 2, 3]))
         s = self.map(pool) if (r.random() < 0.7 or "nc" in causes) else self.apply(pool)
         s.pop("callraise", None)
+        if s["op"] == "apply" and r.random() < 0.5:
+            s["args"] = "iter"
         if "func" in causes:
             s["func_kind"] = r.choice(["plain", "plain", "lambda", "lambda", "builtin", "gen", "asyncgen", "method"])
             s.pop("bad", None)
@@ -241,7 +256,7 @@ class Gen:
         pools = []
         for i in range(r.choice(p["npools"])):
             cls = r.choice(p["cls"])
-            ps = {"idx": i, "cls": cls, "size": r.choice(p["sizes"]), "name": r.choice([None, None, f"p{i}", "same", ""])}
+            ps = {"idx": i, "cls": cls, "size": r.choice(p["sizes"]), "name": r.choice([None, None, f"p{i}", "same", "", f"load 100% {i}", "%s", "{}", f"p {i}", "pöol" + "x" * 40])}
             if p.get("size_track"):
                 ps["size_track"] = True
             pools.append(ps)
@@ -268,7 +283,7 @@ class Gen:
                 st = self.map(pool)
             elif k == "start" and pool["cls"] == "S":
                 st = {"op": "start", "pool": pool["idx"], "num": r.choice([0, 1, 1, 2, 2, 3, 4, 6] + ([11] if self.long else []))}
-            elif k in ("cancel", "cancel_group", "cancel_all", "flush", "lock", "unlock", "open"):
+            elif k in ("cancel", "cancel_group", "cancel_all", "flush", "lock", "unlock", "open", "set_same"):
                 st = self.simple_op(k, pool)
             elif k == "stop" and pool["cls"] == "S":
                 st = self.simple_op(k, pool)
